@@ -75,18 +75,26 @@ Proof.
   rewrite frag1_not_derived in H. discriminate.
 Qed.
 
+Lemma frag1_sustain_of f : sustain_of fb f = 1.
+Proof.
+  destruct frag1_parts as (H1 & _). unfold single_plain_crossing in H1. unfold sustain_of.
+  destruct (fl_crossings fb) as [|c [|? ?]]; try discriminate. destruct (fl_sustains fb) as [|[|[|?]] [|? ?]]; try discriminate.
+  cbn. destruct (existsb (Nat.eqb f) c); reflexivity.
+Qed.
+
 (** F1 is the part of F2 without weights, with one crossing and without implied factors *)
 Theorem frag1_frag2 : frag2 fb = true.
 Proof.
   destruct frag1_parts as (H1 & H2 & H3 & H4 & H5 & H6 & H7 & H8 & H9 & H10).
   assert (HB : forallb (constraint_f2 fb) (fl_constraints fb) = true).
   { apply forallb_forall. intros k Hk. rewrite forallb_forall in H2. specialize (H2 k Hk).
-    destruct k; cbn [constraint_f1] in H2; cbn [constraint_f2]; try exact H2;
+    destruct k; cbn [constraint_f1] in H2; cbn [constraint_f2]; try exact H2; try discriminate H2;
       repeat match goal with
              | H : _ && _ = true |- _ => apply andb_prop in H; destruct H
              end;
       repeat (apply andb_true_intro; split); try assumption;
-      match goal with H : (?f <? _) = true |- isact fb ?f = true => apply frag1_isact; apply Nat.ltb_lt; exact H end. }
+      first [ match goal with H : (?f <? _) = true |- isact fb ?f = true => apply frag1_isact; apply Nat.ltb_lt; exact H end
+            | apply Nat.eqb_eq; apply frag1_sustain_of ]. }
   assert (HD : act_sorted fb = true).
   { unfold act_sorted. rewrite frag1_act. rewrite (filter_all (isact fb) _) by (intros f Hf; apply in_seq in Hf; apply frag1_isact; lia).
     apply nat_list_eqb_refl. }
@@ -109,13 +117,18 @@ Proof.
   destruct (fl_sizes fb) as [|s0 [|? ?]] eqn:Ez; try discriminate.
   apply andb_prop in H1. destruct H1 as [H1a H1b].
   assert (HA : plain_crossings fb = true).
-  { unfold plain_crossings. rewrite Ec, Es, Ew, Ep, Ez. cbn [length forallb combine Nat.ltb Nat.leb Nat.eqb andb].
+  { unfold plain_crossings, main_crossing_of, main_idx. rewrite Ec, Es, Ew, Ep, Ez.
+    cbn [length forallb existsb combine Nat.ltb Nat.leb Nat.eqb andb orb main_idx_of nth first_index_of].
     unfold crossing_plain. rewrite H1a, H7. cbn [andb].
     replace (forallb (isact fb) c) with true
       by (symmetry; apply forallb_forall; intros f Hf; apply frag1_isact; rewrite forallb_forall in H1b; apply Nat.ltb_lt; apply H1b; exact Hf).
-    cbn [andb]. unfold crossing_size_ok. cbn [fst snd].
+    replace (forallb (fun f => sustain_of fb f =? 1) c) with true
+      by (symmetry; apply forallb_forall; intros f _; apply Nat.eqb_eq; apply frag1_sustain_of).
+    rewrite nat_list_eqb_refl. rewrite Nat.mod_1_r.
+    cbn [andb Nat.eqb]. unfold crossing_size_ok.
     rewrite (list_sum_ones (fun ls => combo_weight fb (combine c ls))) by (intros ls _; apply Hcw; reflexivity).
-    rewrite frag1_allowed_combos. rewrite H8. reflexivity. }
+    rewrite frag1_allowed_combos. rewrite Nat.mul_1_r. rewrite H8. cbn [andb]. rewrite frag1_sustain_of.
+    destruct c as [|f0 c']; [reflexivity | rewrite frag1_sustain_of; reflexivity]. }
   rewrite HA. cbn [andb length Nat.eqb]. rewrite andb_true_r. exact H10.
 Qed.
 
@@ -133,10 +146,17 @@ Qed.
 Lemma frag1_cand_fseq k : cand_fseq fb k = cand_tseq fb k.
 Proof. unfold cand_fseq, cand_tseq. destruct (decode_key fb k); [apply frag1_cand_seq | reflexivity]. Qed.
 
+Lemma frag1_main_idx : main_idx fb = 0.
+Proof.
+  destruct frag1_parts as (H1 & _). unfold single_plain_crossing in H1. unfold main_idx.
+  destruct (fl_crossings fb) as [|c [|? ?]]; try discriminate. destruct (fl_sustains fb) as [|[|[|?]] [|? ?]]; try discriminate.
+  reflexivity.
+Qed.
+
 Lemma frag1_weight : the_weight fb = 1.
 Proof.
   destruct frag1_parts as (_ & _ & _ & _ & _ & H6 & _). unfold unit_weights in H6.
-  apply andb_prop in H6. destruct H6 as [H6 _]. unfold the_weight.
+  apply andb_prop in H6. destruct H6 as [H6 _]. unfold the_weight. rewrite frag1_main_idx.
   destruct (fl_weights fb) as [|[|[|?]] [|? ?]]; try discriminate. reflexivity.
 Qed.
 
@@ -145,7 +165,8 @@ Proof.
   unfold f0_unw, p_unw. rewrite (f0_cws_eq fb frag1_frag2). apply forallb_forall. intros x Hx.
   apply in_map_iff in Hx. destruct Hx as [ls [E _]]. subst x. unfold f0_cw.
   rewrite frag1_combo_weight; [rewrite frag1_weight; reflexivity|].
-  destruct frag1_parts as (H1 & _). unfold single_plain_crossing in H1. unfold the_crossing.
+  destruct frag1_parts as (H1 & _). unfold single_plain_crossing in H1. unfold the_crossing, main_crossing_of.
+  rewrite frag1_main_idx.
   destruct (fl_crossings fb) as [|c [|? ?]]; try discriminate. reflexivity.
 Qed.
 
